@@ -6,6 +6,9 @@ import SkoolVerif.Proofs.RzxFetchCmio
 import SkoolVerif.Proofs.RzxResume
 import SkoolVerif.Proofs.RzxFileLemmas
 import SkoolVerif.Proofs.RzxConventionLemmas
+import SkoolVerif.Proofs.ExecFrameC
+import SkoolVerif.Proofs.FrameLoopPy
+import SkoolVerif.Proofs.RunLoop
 /-!
 C20 — RZX playback is reproducible, implementation-independent and resumable.
 
@@ -339,5 +342,107 @@ example : Ex.obs (playBlock .py false 0 (Sim.step Ex.cfg0) none [⟨3, []⟩] 0 
 example : Ex.obs (playBlock .py false 0 (Sim.step Ex.cfg0) none [⟨3, [191, 7]⟩] 0 Ex.s0) = [3] := by decide +kernel   -- left over
 -- `rzxplay`'s configuration satisfies the hypotheses of `resume_rzx` / `playback_ignores_unsaved_state`
 example : Ex.cfg0.int_active = 0 ∧ 0 < Ex.cfg0.frame_duration := by decide
+
+
+/-! ### The C frame loop is translated from source (`translate/cloop2lean.py`)
+
+`CSimulator_exec_frame` (both builds) is translated on every run into `Gen/CLoops/exec_frame.lean` / `Gen/CCmioLoops/exec_frame.lean`: the
+`while (1) { … if (fetch_count <= 0) break; }` body as an iteration function — its inline fetch (`switch (opcode)` with `r_inc`, `r0`) and the
+fetch-counter arithmetic in C integer semantics (`int fetch_count -= unsigned`), the `exec_map` / `trace` callbacks as an output log — iterated
+with fuel.  The hand model `cFrame` / `fetchDecC` of this file (theorems `c_fetch_dec_eq_py`, `c_frame_eq_py_frame`) is hereby derived from
+the C source instead of tied to it by correspondence only. -/
+
+/-- **`CSimulator_exec_frame`, translated (plain build), is `cFrame`** over `Simulator`'s step (C06 `c_step_eq_python`): for every frame
+with a positive fetch counter (below 2^31: the C `int`), from every in-range state, any memory model and port readings — whenever the
+model's frame ends without the "port readings exhausted" error (which in the real code is a Python exception raised by
+`RZXTracer.read_port`, outside the translated subset) the translated function returns the same final state and the same address of the last
+instruction; the callbacks influence neither. -/
+theorem c_exec_frame_derived_from_source {μ : Type} [MemLike μ] [CellMem μ] (cfg : Cfg) (hcfg : CSimH.CfgRep cfg) (hout : CSimH.OutOkAll μ cfg)
+    (fc : Int) (exec_map trace : PyObj) (log0 : List (List Int)) (s : St μ) (h : RInv s) (hfc : 0 < fc ∧ fc < 2147483648)
+    (ht : s.t + fc.toNat * Tshift.maxDur < 9223372036854775808) (r : St μ × Int)
+    (hok : cFrame (fun s => Sim.step cfg s) fc.toNat fc s = .ok r) :
+    CSimH.Loop.exec_frame cfg fc.toNat fc exec_map trace log0 s = ((r.1, r.2), true) :=
+  RunLoop.c_exec_frame cfg hcfg hout fc exec_map trace log0 s h hfc ht r hok
+
+/-- the `-DCONTENTION` build over `CMIOSimulator`'s step -/
+theorem c_cmio_exec_frame_derived_from_source {μ : Type} [MemLike μ] [CellMem μ] [PageStable μ] (cfg : Cfg) (hcfg : CSimH.CfgRep cfg)
+    (hout : CSimH.OutOkAll μ cfg) (fc : Int) (exec_map trace : PyObj) (log0 : List (List Int)) (s : St μ) (h : RInv s)
+    (hfc : 0 < fc ∧ fc < 2147483648) (ht : s.t + fc.toNat * Tshift.maxDurCmio < 9223372036854775808) (r : St μ × Int)
+    (hok : cFrame (fun s => Cmio.step cfg s) fc.toNat fc s = .ok r) :
+    CCmioH.Loop.exec_frame cfg fc.toNat fc exec_map trace log0 s = ((r.1, r.2), true) :=
+  RunLoop.c_cmio_exec_frame cfg hcfg hout fc exec_map trace log0 s h hfc ht r hok
+
+/-- One pass of the translated loop, read off its text: the inline fetch selects the row `GET_OPCODE_FUNC` selects, and the counter drops by
+`fetchDecC` of the two opcode bytes and R before / after — in C arithmetic, with no wrap for counters in the `int` range. -/
+theorem c_exec_frame_pass {μ : Type} [MemLike μ] [CellMem μ] (cfg : Cfg) (exec_map trace : PyObj) (s : St μ) (l : CSimH.Loop.Exec_frameLocals)
+    (h : RInv s) (hs' : RInv (CSimH.step cfg s)) (hfc : -2147483648 ≤ l.fetch_count - 2 ∧ l.fetch_count < 2147483648) :
+    CSimH.Loop.exec_frame_loop1_body cfg exec_map trace s l =
+      ((CSimH.step cfg s, ⟨l.fetch_count - RunLoop.cDec cfg s, s.pc,
+          RunLoop.frameLog exec_map trace s.pc s.t (l.fetch_count - RunLoop.cDec cfg s) l.cblog⟩),
+        if l.fetch_count - RunLoop.cDec cfg s ≤ 0 then .break_ else .continue_) :=
+  RunLoop.c_frame_body cfg exec_map trace s l h hs' hfc
+
+/-- `accept_interrupt` at the frame boundary: the function this file's `boundary` applies IS the translation of
+`Simulator.accept_interrupt` / `CMIOSimulator.accept_interrupt` (`translate/pyloop2lean.py`) and of the C `accept_interrupt` (C06). -/
+theorem accept_interrupt_derived_from_source {μ : Type} [MemLike μ] (cfg : Cfg) (prevPc : Int) (s : St μ) :
+    (PyLoop.Sim.accept_interrupt cfg prevPc s).1 = acceptInterrupt false prevPc s ∧
+    (PyLoop.Cmio.accept_interrupt cfg prevPc s).1 = acceptInterrupt true prevPc s := by
+  rw [RunLoop.py_accept_eq, RunLoop.py_cmio_accept_eq, RunLoop.traceLoop_accept_eq_rzx, RunLoop.traceLoop_accept_eq_rzx]
+  exact ⟨rfl, rfl⟩
+
+/-- **The Python frame loop of `process_block`, translated** (`translate/pyloop2lean.py`, loop core `while fetch_counter > 0:`; `Gen/PyLoopCores.lean`),
+**is `runFrame`** — what `innerLoop .py` runs: whenever the model's frame ends without the "port readings exhausted" error, the translated loop
+(with one more pass of fuel, for the failing `while` test) ends in the same state, and its `pc` is the address of the last instruction
+executed (the incoming `pc` if the counter was not positive); any state, any counter. -/
+theorem python_frame_loop_derived_from_source {μ : Type} [MemLike μ] (cfg : Cfg) (exec_map tracefile : Bool) (fc pc0 : Int) (log0 : List (List Int))
+    (s : St μ) (n : Nat) (hn : fc ≤ n) (r : St μ × Int) (hok : runFrame (fun s => Sim.step cfg s) n fc s pc0 = .ok r) :
+    (PyLoop.Sim.frame_loop cfg (n + 1) exec_map tracefile fc pc0 log0 s).1.1 = r.1 ∧
+      (PyLoop.Sim.frame_loop cfg (n + 1) exec_map tracefile fc pc0 log0 s).1.2.pc = r.2 ∧
+      (PyLoop.Sim.frame_loop cfg (n + 1) exec_map tracefile fc pc0 log0 s).2 = true :=
+  RunLoop.py_frame cfg exec_map tracefile fc pc0 log0 s n hn r hok
+
+/-- the same over `CMIOSimulator` -/
+theorem python_cmio_frame_loop_derived_from_source {μ : Type} [MemLike μ] (cfg : Cfg) (exec_map tracefile : Bool) (fc pc0 : Int)
+    (log0 : List (List Int)) (s : St μ) (n : Nat) (hn : fc ≤ n) (r : St μ × Int) (hok : runFrame (fun s => Cmio.step cfg s) n fc s pc0 = .ok r) :
+    (PyLoop.Cmio.frame_loop cfg (n + 1) exec_map tracefile fc pc0 log0 s).1.1 = r.1 ∧
+      (PyLoop.Cmio.frame_loop cfg (n + 1) exec_map tracefile fc pc0 log0 s).1.2.pc = r.2 ∧
+      (PyLoop.Cmio.frame_loop cfg (n + 1) exec_map tracefile fc pc0 log0 s).2 = true :=
+  RunLoop.py_cmio_frame cfg exec_map tracefile fc pc0 log0 s n hn r hok
+
+/-- **The end-of-frame interrupt rules of `process_block`, translated** (loop core `registers[25] = 0; fetch_counter = tracer.next_frame();
+if registers[26]: …`), **are `boundary`**: the HALT / LD A,I-R (flag 1) / EI-and-short-frame (flag 2) chain with the memory re-read at the last
+instruction's address, for every state, flags, address and next fetch counter; plain and contended (`accept_interrupt` translated too). -/
+theorem python_frame_boundary_derived_from_source {μ : Type} [MemLike μ] (cfg : Cfg) (flags pc nextFc : Int) (s : St μ) :
+    (PyLoop.Sim.frame_boundary cfg (PyInt.land flags 1) (PyInt.land flags 2) pc nextFc s).1 = boundary false flags pc nextFc s ∧
+    (PyLoop.Cmio.frame_boundary cfg (PyInt.land flags 1) (PyInt.land flags 2) pc nextFc s).1 = boundary true flags pc nextFc s :=
+  ⟨(RunLoop.py_boundary cfg flags pc nextFc s).1, (RunLoop.py_cmio_boundary cfg flags pc nextFc s).1⟩
+
+/-- **`c_frame_eq_py_frame`, on the translated loops**: for a frame with a positive fetch counter (below 2^31) from an in-range state, if the
+frame plays without the "port readings exhausted" error then `CSimulator_exec_frame` and the Python frame loop, both translated from source,
+end in the same state and report the same last address. -/
+theorem translated_c_frame_eq_translated_python_frame {μ : Type} [MemLike μ] [CellMem μ] (cfg : Cfg) (hcfg : CSimH.CfgRep cfg)
+    (hout : CSimH.OutOkAll μ cfg) (fc : Int) (emC trC : PyObj) (emP tfP : Bool) (logC logP : List (List Int)) (s : St μ) (h : RInv s)
+    (hfc : 0 < fc ∧ fc < 2147483648) (ht : s.t + fc.toNat * Tshift.maxDur < 9223372036854775808) (r : St μ × Int)
+    (hok : innerLoop .py (Sim.step cfg) fc s = .ok r) :
+    CSimH.Loop.exec_frame cfg fc.toNat fc emC trC logC s = ((r.1, r.2), true) ∧
+      (PyLoop.Sim.frame_loop cfg (fc.toNat + 1) emP tfP fc s.pc logP s).1.1 = r.1 ∧
+      (PyLoop.Sim.frame_loop cfg (fc.toNat + 1) emP tfP fc s.pc logP s).1.2.pc = r.2 := by
+  have hc : innerLoop .c (Sim.step cfg) fc s = .ok r := by rw [c_frame_eq_py_frame cfg fc s h hfc.1]; exact hok
+  have p := RunLoop.py_frame cfg emP tfP fc s.pc logP s fc.toNat (by omega) r hok
+  exact ⟨RunLoop.c_exec_frame cfg hcfg hout fc emC trC logC s h hfc ht r hc, p.1, p.2.1⟩
+
+/-- non-vacuity: a frame of 3 fetches on the all-zero 128K state (NOPs) through the translated loop: three passes, last instruction at 2 -/
+theorem c_exec_frame_example :
+    (CSimH.Loop.exec_frame RunLoop.witCfg 3 3 PyObj.none PyObj.none [] RunLoop.wit).1.2 = 2 ∧
+    (CSimH.Loop.exec_frame RunLoop.witCfg 3 3 PyObj.none PyObj.none [] RunLoop.wit).1.1.pc = 3 ∧
+    (CSimH.Loop.exec_frame RunLoop.witCfg 3 3 PyObj.none PyObj.none [] RunLoop.wit).2 = true := by
+  refine ⟨?_, ?_, ?_⟩ <;> decide +kernel
+
+/-- the hypothesis `… = .ok r` of the frame-loop theorems is satisfiable: on the all-zero 128K state (NOPs) the model's frame of 3 fetches ends
+normally after the instruction at address 2, in the C shape and in the Python shape -/
+theorem frame_loop_hypothesis_holds :
+    RunLoop.frameObs (cFrame (fun s => Sim.step RunLoop.witCfg s) 3 3 RunLoop.wit) = some (2, 3) ∧
+    RunLoop.frameObs (runFrame (fun s => Sim.step RunLoop.witCfg s) 3 3 RunLoop.wit 0) = some (2, 3) := by
+  constructor <;> decide +kernel
 
 end C20
